@@ -2,8 +2,10 @@
      fv <sexp>        dependency tables of every record literal of the term (model of free_vars.rs),
                       same canonical text as harness/src/bin/c07fv.rs
      fvbug <sexp>     the same with the pre-fix analysis (TypeF::Enum skipped)
-     hist (<fuel> <step>...)   an override history on the mechanism model I (faithful configuration),
-     histu (<fuel> <step>...)  ... with hook H4 (all dependencies unknown),
+     hist (<fuel> <step>...)   an override history on the mechanism model I configured as the Rust code
+                               is (closurize.rs wraps the thunk of a dynamically named field),
+     histf (...)               ... configured as the Rust code with the proposed patch,
+     histu / histfu (...)      ... with hook H4 (all dependencies unknown),
                       and on the specification S; output `<I fields>\t<S fields>`
    Only parsing and printing happen here. *)
 
@@ -161,8 +163,10 @@ let prio_of = function
 let step_of = function
   | L (A "lit" :: fs) ->
       M.SLit (List.map (function
-        | L [k; p; A "_"] -> (mnum k, { M.fprio = prio_of p; M.fbody = None })
-        | L [k; p; b] -> (mnum k, { M.fprio = prio_of p; M.fbody = Some (btm_of b) })
+        | L [k; p; A "_"] -> (mnum k, { M.fprio = prio_of p; M.fbody = None; M.fdyn = false })
+        | L [k; p; b] -> (mnum k, { M.fprio = prio_of p; M.fbody = Some (btm_of b); M.fdyn = false })
+        | L [A "dyn"; k; p; A "_"] -> (mnum k, { M.fprio = prio_of p; M.fbody = None; M.fdyn = true })
+        | L [A "dyn"; k; p; b] -> (mnum k, { M.fprio = prio_of p; M.fbody = Some (btm_of b); M.fdyn = true })
         | _ -> failwith "fdef") fs)
   | L [A "merge"; i; j] -> M.SMerge (mnat_of_int (mint i), mnat_of_int (mint j))
   | _ -> failwith "step"
@@ -206,8 +210,10 @@ let () =
           match mode with
           | "fv" -> run_fv false (parse_sx rest)
           | "fvbug" -> run_fv true (parse_sx rest)
-          | "hist" -> run_hist M.cfg_real (parse_sx rest)
-          | "histu" -> run_hist M.cfg_unknown (parse_sx rest)
+          | "hist" -> run_hist M.cfg_current (parse_sx rest)
+          | "histu" -> run_hist (M.with_unknown M.cfg_current) (parse_sx rest)
+          | "histf" -> run_hist M.cfg_fixed (parse_sx rest)
+          | "histfu" -> run_hist (M.with_unknown M.cfg_fixed) (parse_sx rest)
           | _ -> "BAD mode"
         with Failure m -> "BAD " ^ m | Stack_overflow -> "BAD stack"
       in
